@@ -773,6 +773,17 @@ def np_append(a, b, axis=None):
     return np_concatenate([a, b])
 
 
+@model("numpy.atleast_2d")
+def np_atleast_2d(x):
+    t = to_tensor(x, fresh=False)
+    if t.ndim == 0:
+        return t.reshape(1, 1)
+    if t.ndim == 1:
+        fz = t.frozen()
+        return Tensor((1, t.shape[0]), lambda i, j: fz.at(j), dtype=t.dtype)
+    return t
+
+
 @model("numpy.atleast_1d")
 def np_atleast_1d(x):
     t = to_tensor(x, fresh=False)
